@@ -300,6 +300,14 @@ def run_shard(mod, ctx: Ctx, replay_case=None):
                 mod.run_case(ctx, case)
             except Inconclusive as e:
                 ctx.inconclusive.append(str(e))
+            except Warning:
+                # only in the ambient lane (warnings are errors there): a call that merely warns is
+                # allowed to fail under the user's own warning policy; what must not happen is a
+                # request left half done - that is judged where the harness can look at the state
+                # afterwards (drive.Run.dispatch), not here
+                if not ambient:
+                    raise
+                ctx.count("cases_abandoned_because_a_warning_was_an_error")
             except Exception as e:  # harness or library crash: surface it
                 ctx.violation(
                     "unexpected_exception",
